@@ -170,7 +170,9 @@ def run_stop(env, op_name, variables, oseed, density, plan, schedule, early, sto
         out["drained"] = ok
         out["tasks_left"] = [repr(t.get_coro())[:80] for t in sched.unfinished_tasks()]
         out["inflight_end"] = stats["inflight"]
-        out["sources"] = sources
+        # snapshot now: closing the loop below runs shutdown_asyncgens(), which would finalise a source
+        # the library forgot and so hide the leak
+        out["sources"] = [dict(s) for s in sources]
         out["hook_calls"] = hook_calls
         out["reason"] = reason
         return out
